@@ -664,7 +664,7 @@ def rule_f(ctx: Context, R: Reporter, cc: ClassInfo, v: FuncInfo):
                     # wrapper receives the parameter as given
                     rx = ExprResolver(fi.node).resolve(a, at)
                     if isinstance(rx, ast.Call) and any(isinstance(t, ClassInfo) for t in ctx.res.call_targets(fi, rx)) \
-                            and any(isinstance(x, ast.Name) and x.id == fld for x in rx.args) and all(d.kind == "param" for d in flow.reaching(at, fld)):
+                            and any(isinstance(x, ast.Name) and x.id == fld for x in list(rx.args) + [k_.value for k_ in rx.keywords]) and all(d.kind == "param" for d in flow.reaching(at, fld)):
                         ok = True
                 why = f"`{unparse(a)[:40]}`" if not (isinstance(a, ast.Name) and a.id == fld) else \
                     "re-bound before the call: " + "; ".join(norm_text(d.stmt)[:50] for d in (flow.reaching(at, fld) if at is not None else []) if d.kind != "param" and d.stmt is not None)
